@@ -48,6 +48,12 @@ def gen(ctx):
         inf = IO.analyse(stacks[si])
         bare = not any(g[0] == "S" for g in inf.gen)
         cases.append((si, IO.fmt_dat(IO.gen_dat(inf, rnd, "mixed", maxcells=24000, ext_pool=[5600, 6001] if bare else [18, 19, 75]))))
+    for si, s in enumerate(stacks):
+        inf = IO.analyse(s)
+        if s == [["array", "f32", 3]]:          # a payload of more than a megabyte, odd cell width
+            cases.append((si, IO.fmt_dat(IO.gen_dat(inf, rnd, "mixed", maxcells=400000, ext_pool=[90001]))))
+        if s == [["strided", "u16", 2], ["array", "f32", 1]]:      # exactly 2^16 cells under 16-bit coordinates
+            cases.append((si, IO.fmt_dat(IO.gen_dat(inf, rnd, "mixed", maxcells=70000, ext_pool=[256]))))
     return stacks, cases
 
 
